@@ -376,6 +376,12 @@ func (a *Array) Set(index uint64, value Value) (Storable, error) {
 		return nil, err
 	}
 
+	// If overwritten storable is the inlined slab of the new value (an inlined child set back
+	// into its own slot), the child is still stored in this array: it must stay inlined.
+	if isInlinedSlabOfValue(existingStorable, value) {
+		return existingStorable, nil
+	}
+
 	var existingValueID ValueID
 
 	// If overwritten storable is an inlined slab, uninline the slab and store it in storage.
